@@ -187,6 +187,9 @@ func solveAll(dir string, jobs []*solveJob, tier string, timeoutS int, workers i
 			var tried []string
 			for k, s := range order {
 				t := timeoutS
+				if j.cover && t > 4 {
+					t = 4
+				}
 				if k > 0 && tier == "quick" {
 					t = timeoutS / 2
 					if t < 2 {
@@ -205,7 +208,9 @@ func solveAll(dir string, jobs []*solveJob, tier string, timeoutS int, workers i
 				if tier == "quick" && (r.Status == "unsat" || r.Status == "sat") {
 					break
 				}
-				if j.cover && (r.Status == "unknown" || r.Status == "sat" || r.Status == "unsat") {
+				if j.cover && r.Status != "error" {
+					// vacuity guards: a contradiction among the assumptions shows up quickly or not at all; a time-out
+					// means "not refuted", like unknown
 					break
 				}
 			}
